@@ -47,6 +47,9 @@ type Profile struct {
 	Streaming    bool
 	Files        bool
 	HostileNames bool
+	// HostileFields: attribute names only from the hostile pool (keywords, predeclared
+	// identifiers, Goify collisions, names the generated code uses itself)
+	HostileFields bool
 	Meta         bool
 	AllVerbs     bool
 	PrimPayloads bool // primitive / array / map payloads and results
@@ -90,6 +93,21 @@ func Routes() Profile {
 		Validations: true, Defaults: true, UserTypes: true, Aliases: true, Recursive: true, ResultTypes: true, Collections: true,
 		Errors: true, CustomErrors: true, Security: true, MultiRoute: true, BasePaths: true, Cookies: true, Tags: true, RespHeaders: true,
 		ExplicitBody: true, Maps: true, Bytes: true, Files: true, AllVerbs: true, PrimPayloads: true, NoBodyVerbs: true, ParamHeavy: true, Meta: true}
+}
+
+// Names is a C01 campaign profile: the routes envelope outside the runtime
+// subset (API names with spaces, raw bytes in parameters, names only distinct
+// as written) with attribute names drawn from Go keywords, predeclared
+// identifiers, acronyms, separators, non-ASCII and identifiers the generated
+// code declares itself.
+func Names() Profile {
+	p := Routes()
+	p.Name = "names"
+	p.Runtime = false
+	p.HostileFields = true
+	p.Any = true
+	p.Unions = true
+	return p
 }
 
 // Views is the C08 profile.
@@ -163,6 +181,17 @@ var hostileNames = []string{"type", "func", "range", "map", "string", "error", "
 	"Payload", "Result", "body", "err", "res", "v", "Client", "Server", "New", "ctx", "p", "s", "e", "c", "w", "r", "mux", "decoder", "encoder", "resp", "req", "view", "goa", "goahttp", "context", "fmt", "http", "strconv",
 	"1st", "2_x", "a.b", "with space", "dash-ed", "Ünï", "_lead", "trail_", "ID", "Id", "iD"}
 
+// keywordNames: the part of the hostile pool goa is expected to cope with
+// (Goify escapes reserved words and sanitises characters): Go keywords,
+// predeclared identifiers, acronyms, separators, non-ASCII, and names equal to
+// identifiers the generated code declares itself. Names that collide with each
+// other after Goify, start with a digit, or equal a package the generated code
+// imports are left to the full hostile pool.
+var keywordNames = []string{"type", "func", "range", "map", "string", "error", "nil", "len", "int", "bool", "any", "package", "import", "var", "default", "switch", "select", "go", "chan", "interface", "struct", "return",
+	"foo-bar", "url", "api_key", "http_url", "uuid", "ip", "json_data", "xml",
+	"Result", "Client", "Server", "New", "s", "e", "c", "w", "decoder", "encoder", "view",
+	"a.b", "with space", "dash-ed", "Ünï", "_lead", "trail_"}
+
 func (g *G) pickName(pool []string, scope map[string]bool, label string) string {
 	for try := 0; try < 40; try++ {
 		n := rapid.SampledFrom(pool).Draw(g.t, label)
@@ -187,8 +216,11 @@ func (g *G) pickName(pool []string, scope map[string]bool, label string) string 
 }
 
 func (g *G) fieldName(scope map[string]bool) string {
-	if g.p.HostileNames && rapid.IntRange(0, 3).Draw(g.t, "hostile") == 0 {
+	if (g.p.HostileNames || g.p.HostileFields) && rapid.IntRange(0, 3).Draw(g.t, "hostile") == 0 {
 		g.feat("hostile-name")
+		if !g.p.HostileNames {
+			return g.pickName(keywordNames, scope, "hname")
+		}
 		return g.pickName(hostileNames, scope, "hname")
 	}
 	return g.pickName(plainNames, scope, "fname")
@@ -543,6 +575,9 @@ func (g *G) typ(depth int, self string) *m.Type {
 		g.feat("user-type-ref")
 		return &m.Type{Kind: m.User, User: n}
 	case c == 19 && g.p.Unions:
+		if g.inlineLevel >= 1 && g.avoid("C01-union-in-inline-object") {
+			return &m.Type{Kind: g.prim()}
+		}
 		g.feat("union")
 		u := &m.Type{Kind: m.Union}
 		n := rapid.IntRange(2, 3).Draw(t, "nunion")
